@@ -566,6 +566,22 @@ def truth_in_frame(unit):
     return out
 
 
+SPLIT_EPS = 1e-9      # gon = 1e-5 cc; 4e-9 m at 283 m
+
+
+def split_modes(unit, mask):
+    """extra circle-zero modes of a state (templates with unit.zsplit): every station's orientation
+    shift exactly 200 / 0 gon x every sign pattern of +-SPLIT_EPS on its readings to known points
+    (the number of known targets seen by a station must be >= 4); [] otherwise"""
+    if not getattr(unit, "zsplit", False): return []
+    m = {}
+    for c in unit.chosen(mask):
+        if c[0] == "dir" and c[2] in unit.fix: m[c[1]] = m.get(c[1], 0) + 1
+    mm = max(m.values()) if m else 0
+    if mm < 4: return []
+    return [len(ZERO_MENU) + k for k in range(2 * (1 << mm))]
+
+
 def group_orders(unit, mask):
     """all orders of the cluster groups present in the state: the station
     clusters (one block, stations in order of first appearance), the
@@ -608,7 +624,21 @@ def build_net(unit, mask, variant, zrot, order=0):
         cs = [c for c in chosen if c[0] in ("dir", "dist", "ang", "azi", "sd", "za") and c[1] == s]
         cs = [c for c in cs if c[0] == "azi" and len(c) > 3 and c[3] == "first"] + \
              [c for c in cs if not (c[0] == "azi" and len(c) > 3 and c[3] == "first")]
-        groups.setdefault("obs", []).append(Cluster("obs", [mk_obs(c) for c in cs], frm=s, zero=ZERO_MENU[(si + zrot) % len(ZERO_MENU)]))
+        ol = [mk_obs(c) for c in cs]
+        zero = ZERO_MENU[(si + zrot) % len(ZERO_MENU)]
+        if zrot >= len(ZERO_MENU):
+            # split mode (see split_modes): the orientation shift of the circle is exactly 200 gon
+            # (or 0 = 400 gon) and the readings to the known points carry +-SPLIT_EPS, far below the
+            # tolerances of the oracle, so that bearing - reading falls on both sides of the branch cut
+            k = zrot - len(ZERO_MENU)
+            zero = (200.0, 0.0)[k % 2]
+            pat = k // 2
+            j = 0
+            for c, o in zip(cs, ol):
+                if c[0] == "dir" and c[2] in unit.fix:
+                    o.err = SPLIT_EPS if (pat >> j) & 1 else -SPLIT_EPS
+                    j += 1
+        groups.setdefault("obs", []).append(Cluster("obs", ol, frm=s, zero=zero))
     hd = [mk_obs(c) for c in chosen if c[0] == "dh"]
     if hd: groups["hd"] = [Cluster("height-differences", hd)]
     vc = [mk_obs(c) for c in chosen if c[0] == "vec"]
